@@ -796,5 +796,330 @@ pub fn run_c11(tier: &Tier, args: &[String]) -> i32 {
         "cuts are process deaths between two file-system mutations (fault points H3), not torn sectors".into(),
     ];
     run_c11_history(tier, args, &mut out);
+    let hist_cov = out.coverage.clone();
+    let fault_cov = run_c11_faults(tier, &mut out);
+    let mut cov = hist_cov;
+    if let serde_json::Value::Object(m) = &mut cov {
+        m.insert("fault_enumeration".into(), fault_cov.clone());
+        // the generic keys count both parts
+        let e = fault_cov["evaluations"].as_u64().unwrap_or(0);
+        let t = m.get("transitions").and_then(|x| x.as_u64()).unwrap_or(0);
+        m.insert("evaluations".into(), serde_json::json!(e + t));
+        m.insert("distinct_nontrivial".into(), serde_json::json!(e + m.get("states").and_then(|x| x.as_u64()).unwrap_or(0)));
+        m.insert("rule".into(), serde_json::json!("history part: see states/transitions; fault part: see fault_enumeration.rule"));
+    }
+    out.coverage = cov;
     out.finish()
+}
+
+//------------ C11 fault part: every cut of a repository write -----------------
+
+/// File-level consistency of the RRDP + rsync trees with each other and with
+/// the publication server's content. `expect_current`: whether the snapshot
+/// must equal the list replies (i.e. nothing is staged and the last write
+/// completed).
+fn files_consistent(w: &World, expect_current: bool) -> Vec<(String, String)> {
+    let mut v = Vec::new();
+    let notif_bytes = match std::fs::read(rrdp_dir().join("notification.xml")) {
+        Ok(b) => b,
+        Err(e) => return vec![("notification".into(), format!("cannot read: {e}"))],
+    };
+    let mut notif = match rpki::rrdp::NotificationFile::parse(notif_bytes.as_slice()) {
+        Ok(n) => n,
+        Err(e) => return vec![("notification".into(), format!("does not parse: {e}"))],
+    };
+    let snap_bytes = match read_rel(w, notif.snapshot().uri().as_str()) {
+        Ok(b) => b,
+        Err(e) => return vec![("snapshot".into(), e)],
+    };
+    if !notif.snapshot().hash().matches(&snap_bytes) {
+        v.push(("snapshot".into(), "snapshot hash differs from the notification".into()));
+    }
+    let snap = match rpki::rrdp::Snapshot::parse(snap_bytes.as_slice()) {
+        Ok(s) => s,
+        Err(e) => return vec![("snapshot".into(), format!("does not parse: {e}"))],
+    };
+    let mut current: BTreeMap<String, Bytes> = BTreeMap::new();
+    for el in snap.into_elements() {
+        let (uri, data) = el.unpack();
+        current.insert(canon_uri(&uri.to_string()), data);
+    }
+    notif.sort_deltas();
+    for d in notif.deltas() {
+        match read_rel(w, d.uri().as_str()) {
+            Err(e) => v.push(("delta-file".into(), e)),
+            Ok(b) => {
+                if !d.hash().matches(&b) {
+                    v.push(("delta-file".into(), format!("hash of delta {} differs", d.serial())));
+                } else if rpki::rrdp::Delta::parse(b.as_slice()).is_err() {
+                    v.push(("delta-file".into(), format!("delta {} does not parse", d.serial())));
+                }
+            }
+        }
+    }
+    if expect_current {
+        let mut want: BTreeMap<String, Bytes> = BTreeMap::new();
+        let rm = w.krill.repo_manager();
+        for p in rm.publishers().unwrap_or_default() {
+            if let Ok(d) = rm.get_publisher_details(p.clone()) {
+                for f in d.current_files {
+                    want.insert(canon_uri(&f.uri.to_string()), f.base64.to_bytes());
+                }
+            }
+        }
+        if want != current {
+            v.push(("snapshot-content".into(), "snapshot file differs from the server's current content".into()));
+        }
+        let mut disk: BTreeMap<String, Bytes> = BTreeMap::new();
+        fn walk(dir: &Path, rel: &str, out: &mut BTreeMap<String, Bytes>) {
+            if let Ok(rd) = std::fs::read_dir(dir) {
+                for e in rd.flatten() {
+                    let name = e.file_name().to_string_lossy().to_string();
+                    let p = e.path();
+                    if p.is_dir() {
+                        walk(&p, &format!("{rel}{name}/"), out);
+                    } else if let Ok(b) = std::fs::read(&p) {
+                        out.insert(format!("{BASE}{rel}{name}"), Bytes::from(b));
+                    }
+                }
+            }
+        }
+        walk(&Path::new("repo").join("rsync").join("current"), "", &mut disk);
+        if disk != current {
+            v.push(("rsync-tree".into(), "rsync/current differs from the snapshot".into()));
+        }
+    }
+    v
+}
+
+fn publish_one(w: &mut World, name: &str, content: u8) -> Result<(), String> {
+    let o = w.apply(&Op::PubDelta {
+        publisher: "alice".into(),
+        elems: vec![PubEl::Publish { uri: uri("alice", name), content }],
+    });
+    if o.ok { Ok(()) } else { Err(o.err.unwrap_or_default()) }
+}
+
+/// The follow-up every cut must allow: another publication and a repository
+/// write succeed and leave everything consistent.
+fn next_write_ok(w: &mut World, tag: &str) -> Vec<(String, String)> {
+    let mut v = Vec::new();
+    if let Err(e) = publish_one(w, &format!("after-{tag}.txt"), 3) {
+        v.push(("later-publish-failed".into(), e.replace('\n', " ")));
+        return v;
+    }
+    match w.krill.repo_manager().update_rrdp_if_needed() {
+        Ok(_) => {}
+        Err(e) => {
+            v.push(("later-write-failed".into(), format!("the next repository write fails: {}", e.to_string().replace('\n', " "))));
+            return v;
+        }
+    }
+    // a second one, in case the first only half-recovered
+    if let Err(e) = publish_one(w, &format!("after2-{tag}.txt"), 3) {
+        v.push(("later-publish-failed".into(), e.replace('\n', " ")));
+        return v;
+    }
+    if let Err(e) = w.krill.repo_manager().update_rrdp_if_needed() {
+        v.push(("later-write-failed".into(), format!("the second repository write after the cut fails: {}", e.to_string().replace('\n', " "))));
+        return v;
+    }
+    v.extend(files_consistent(w, true));
+    v
+}
+
+#[derive(Clone, Copy, Debug)]
+enum WriteOp {
+    Update,
+    SessionReset,
+}
+
+fn do_write(w: &mut World, op: WriteOp) -> Result<(), String> {
+    match op {
+        WriteOp::Update => w
+            .krill
+            .repo_manager()
+            .update_rrdp_if_needed()
+            .map(|_| ())
+            .map_err(|e| e.to_string()),
+        WriteOp::SessionReset => {
+            w.krill.repo_manager().rrdp_session_reset().map_err(|e| e.to_string())
+        }
+    }
+}
+
+pub fn run_c11_faults(tier: &Tier, out: &mut Outcome) -> serde_json::Value {
+    use crate::e3::{self, Mode};
+    let root = e1run::scratch_root().with_extension("c11f");
+    let _guard = e1run::ScratchGuard(root.clone());
+    let _ = std::fs::remove_dir_all(&root);
+    std::fs::create_dir_all(&root).unwrap();
+    let mut scenarios: Vec<(&str, RrdpUpdatesConfig, usize, WriteOp)> = vec![
+        // (name, retention, number of earlier updates, operation to cut)
+        ("update-after-3", rrdp_cfg(1, 0, 2, 10, false), 3, WriteOp::Update),
+        ("session-reset", rrdp_cfg(5, 0, 50, 1, false), 2, WriteOp::SessionReset),
+    ];
+    if tier.thorough {
+        scenarios.push(("update-archive", rrdp_cfg(1, 0, 2, 10, true), 3, WriteOp::Update));
+        scenarios.push(("first-update", rrdp_cfg(5, 1200, 50, 7200, false), 0, WriteOp::Update));
+    }
+    let mut evaluations = 0u64;
+    let mut cut_kinds: BTreeSet<String> = BTreeSet::new();
+    let mut samples = Vec::new();
+    let mut per_scenario = Vec::new();
+    // scenarios run in parallel worker processes
+    let mut pids = Vec::new();
+    for (si, (name, cfg, prior, wop)) in scenarios.iter().enumerate() {
+        let dir = root.join(format!("s{si}"));
+        std::fs::create_dir_all(&dir).unwrap();
+        let outf = root.join(format!("s{si}.json"));
+        use std::io::Write;
+        let _ = std::io::stdout().flush();
+        let pid = unsafe { libc::fork() };
+        if pid == 0 {
+            std::env::set_current_dir(&dir).unwrap();
+            let res = std::panic::catch_unwind(std::panic::AssertUnwindSafe(|| {
+                let mut results: Vec<serde_json::Value> = Vec::new();
+                let mut w = build_pubd(*cfg).expect("build");
+                for i in 0..*prior {
+                    publish_one(&mut w, &format!("p{i}.txt"), 1).expect("prior publish");
+                    w.krill.repo_manager().update_rrdp_if_needed().expect("prior update");
+                }
+                // the change the cut write is about
+                publish_one(&mut w, "cut.txt", 2).expect("staged publish");
+                // count
+                let wop = *wop;
+                let (log, _, d) = e3::fork_in_copy("count", || {
+                    let mut w2 = World::reopen(WorldCfg { rrdp: *cfg, ..WorldCfg::default() }).expect("reopen");
+                    e3::arm(Mode::Count, 0);
+                    let r = do_write(&mut w2, wop);
+                    let log = e3::disarm();
+                    (log, r.is_ok())
+                });
+                let _ = std::fs::remove_dir_all(&d);
+                let Some((log, ok)) = log else {
+                    results.push(serde_json::json!({"machinery": "count run died"}));
+                    return results;
+                };
+                if !ok {
+                    results.push(serde_json::json!({"machinery": "fault-free write failed"}));
+                    return results;
+                }
+                results.push(serde_json::json!({"mutations": log}));
+                for n in 0..log.len() {
+                    for mode in [Mode::Crash, Mode::Fail] {
+                        let tag = format!("{}{n}", if mode == Mode::Crash { "c" } else { "f" });
+                        let tag2 = tag.clone();
+                        let cfg2 = *cfg;
+                        // child A: the cut. A fresh runtime on the copy (so
+                        // that nothing is shared with the template process).
+                        let (res_a, code, dir_a) = e3::fork_in_copy(&tag, move || {
+                            let mut w2 = World::reopen(WorldCfg { rrdp: cfg2, ..WorldCfg::default() }).expect("reopen");
+                            e3::arm(mode, n);
+                            let r = do_write(&mut w2, wop);
+                            let _ = e3::disarm();
+                            // only reached in Fail mode: the instance lives on
+                            let mut v: Vec<(String, String)> = Vec::new();
+                            v.extend(files_consistent(&w2, false));
+                            v.extend(next_write_ok(&mut w2, &tag2));
+                            (r.is_ok(), v)
+                        });
+                        let mut viol: Vec<(String, String)> = Vec::new();
+                        match (mode, res_a, code) {
+                            (Mode::Crash, None, 77) => {
+                                // verifier: a fresh instance on what survived
+                                let tag3 = tag.clone();
+                                let (res_v, code_v) = e3::fork_in_dir(&dir_a, move || {
+                                    let mut v: Vec<(String, String)> = Vec::new();
+                                    match World::reopen(WorldCfg { rrdp: cfg2, ..WorldCfg::default() }) {
+                                        Err(e) => v.push(("reopen-failed".into(), e.to_string())),
+                                        Ok(mut w3) => {
+                                            v.extend(files_consistent(&w3, false));
+                                            v.extend(next_write_ok(&mut w3, &tag3));
+                                        }
+                                    }
+                                    v
+                                });
+                                match res_v {
+                                    Some(v) => viol.extend(v),
+                                    None => viol.push(("machinery".into(), format!("verifier died ({code_v})"))),
+                                }
+                            }
+                            (Mode::Crash, Some(_), _) => {
+                                // the n-th mutation was never reached?
+                                viol.push(("machinery".into(), "crash point not reached".into()));
+                            }
+                            (Mode::Fail, Some((_ok, v)), 0) => viol.extend(v),
+                            (m, _, c) => viol.push(("machinery".into(), format!("child ended unexpectedly: mode {m:?} code {c}"))),
+                        }
+                        let _ = std::fs::remove_dir_all(&dir_a);
+                        results.push(serde_json::json!({
+                            "n": n, "mode": format!("{mode:?}"), "at": log[n], "violations": viol,
+                        }));
+                    }
+                }
+                results
+            }));
+            let results = res.unwrap_or_else(|_| vec![serde_json::json!({"machinery": "worker panicked"})]);
+            let _ = std::fs::write(&outf, serde_json::to_vec(&results).unwrap());
+            unsafe { libc::_exit(0) };
+        }
+        pids.push((pid, outf, name.to_string()));
+    }
+    for (pid, outf, name) in pids {
+        let mut st = 0;
+        unsafe { libc::waitpid(pid, &mut st, 0) };
+        let results: Vec<serde_json::Value> = std::fs::read(&outf)
+            .ok()
+            .and_then(|b| serde_json::from_slice(&b).ok())
+            .unwrap_or_else(|| vec![serde_json::json!({"machinery": "no result"})]);
+        let mut cuts = 0;
+        for r in results {
+            if let Some(m) = r.get("machinery") {
+                out.machinery_errors.push(format!("C11 faults {name}: {m}"));
+                continue;
+            }
+            if let Some(m) = r.get("mutations") {
+                samples.push(serde_json::json!({"scenario": name, "mutation_sequence": m}));
+                continue;
+            }
+            evaluations += 1;
+            cuts += 1;
+            let at = r["at"].clone();
+            let kind = at[0].as_str().unwrap_or("").to_string();
+            cut_kinds.insert(kind.clone());
+            for v in r["violations"].as_array().cloned().unwrap_or_default() {
+                let k = v[0].as_str().unwrap_or("").to_string();
+                let d = v[1].as_str().unwrap_or("").to_string();
+                if k == "machinery" {
+                    out.machinery_errors.push(format!("C11 faults {name} cut {}: {d}", r["n"]));
+                    continue;
+                }
+                // the cut is identified by the kind of mutation and the
+                // last path components (stable across runs)
+                let detail = at[1].as_str().unwrap_or("");
+                let short: String = detail.rsplit('/').take(2).collect::<Vec<_>>().join("<");
+                out.findings.push(crate::report::Finding {
+                    signature: format!(
+                        "cut-{k}|{} @ scenario={name} mode={} at={kind}:{}",
+                        crate::e1::normalize(&d), r["mode"].as_str().unwrap_or(""), crate::e1::normalize(&short)
+                    ),
+                    text: format!(
+                        "[{name}] {} before mutation #{} ({kind} {detail}): {k}: {d}",
+                        r["mode"].as_str().unwrap_or(""), r["n"]
+                    ),
+                    replay: serde_json::json!({"part": "c11-faults", "scenario": name, "cut": r}),
+                });
+            }
+        }
+        per_scenario.push(serde_json::json!({"scenario": name, "cuts": cuts}));
+    }
+    serde_json::json!({
+        "evaluations": evaluations,
+        "distinct_nontrivial": evaluations,
+        "mutation_kinds_cut": cut_kinds,
+        "per_scenario": per_scenario,
+        "samples": samples,
+        "rule": "for each scenario the fault-free write is run once counting every KV / file-system mutation (fault points H3); then for every index n and both modes (process death before mutation n; single failing mutation n) the write is re-run on a fresh copy, followed by a fresh instance (crash) or the same instance (fail) doing two more publications+writes; every such execution is a distinct non-trivial case",
+    })
 }
